@@ -25,7 +25,11 @@ class Raised(Exception):
         return f"{n}: {self.msg}"
 
 
-ORDER = "bifc"
+ORDER = "bifcs"       # s: symbolic numbers of hh_sym (exact clauses)
+
+
+def _is_sym(v):
+    return type(v).__name__ in ("SymNum", "SymC")
 
 
 def kind(v):
@@ -37,6 +41,8 @@ def kind(v):
         return "f"
     if isinstance(v, complex):
         return "c"
+    if _is_sym(v):
+        return "s"
     raise Unknown(f"array element of type {type(v).__name__}")
 
 
@@ -49,6 +55,12 @@ def join(kinds, default="f"):
 
 
 def cast(v, dt):
+    if _is_sym(v):
+        if dt in ("f", "c", "s"):
+            return v                    # a symbolic float stays exact in a float array
+        raise Unknown("a symbolic value stored into an integer / boolean array")
+    if dt == "s":
+        return v
     if dt == "f":
         if isinstance(v, complex):
             raise Raised(TypeError, "complex stored into a float array")
@@ -217,7 +229,7 @@ def asarr(x, dtype=None):
         if dtype is not None and dtype != x.dtype:
             return x.astype(dtype)
         return x
-    if isinstance(x, (bool, int, float, complex)):
+    if isinstance(x, (bool, int, float, complex)) or _is_sym(x):
         return Arr.of([x], (), dtype)
     if isinstance(x, (list, tuple)):
         flat, shape = _flatten_seq(x)
@@ -239,7 +251,7 @@ def _flatten_seq(x):
         for p in parts:
             flat.extend(p[0])
         return flat, (len(x),) + parts[0][1]
-    if isinstance(x, (bool, int, float, complex)):
+    if isinstance(x, (bool, int, float, complex)) or _is_sym(x):
         return [x], ()
     raise Unknown(f"array element of type {type(x).__name__}")
 
